@@ -396,3 +396,27 @@ def g_diag1(rng, level=0, n_random=100):
 def g_rpair(rng, level=0, n_random=200):
     for k in range(n_random):
         yield {'N': 1 + k % 4}
+
+
+def _mk_rmul(cval, klass):
+    def g(rng, level=0, n_random=60):
+        pa, _ = _pc()
+        for _ in range(n_random):
+            N = int(rng.integers(1, 4))
+            if klass == 'Pauli':
+                yield {'self': pa.Pauli(bits(rng, 2 * N), int(rng.integers(0, 4))), 'c': cval}
+            else:
+                L = int(rng.integers(0, 4))
+                yield {'self': pa.PauliList(bits(rng, L, 2 * N), rng.integers(0, 4, L).astype(np.int64)), 'c': cval}
+    return g
+
+
+for _tag, _c in (('1', 1), ('i', 1j), ('m1', -1), ('mi', -1j)):
+    GENS[PA + 'Pauli.__rmul__#' + _tag] = _mk_rmul(_c, 'Pauli')
+    GENS[PA + 'PauliList.__rmul__#' + _tag] = _mk_rmul(_c, 'PauliList')
+
+
+@gen(PA + 'PauliList.__neg__')
+def g_lneg(rng, level=0, n_random=60):
+    for a in _mk_rmul(1, 'PauliList')(rng, level, n_random):
+        yield {'self': a['self']}
